@@ -20,6 +20,7 @@ import TdVerif.Lemmas.C04
 import TdVerif.Lemmas.C04Roundtrip
 import TdVerif.Lemmas.C04Split
 import TdVerif.Lemmas.C04Views
+import TdVerif.Lemmas.C04Select
 
 namespace TdVerif.Props.C04
 open TdVerif TdVerif.Key TdVerif.C04
@@ -452,6 +453,54 @@ theorem select_inplace_agrees (keys : List Path) (strict : Bool) (t : Entry) (n 
 example : (selectF 3 [["a"], ["a", "b"]] true false (.node [("a", .node [("b", .leaf false 1), ("c", .leaf false 2)]), ("d", .leaf false 3)])).2
     = .ok (.node [("a", .node [("b", .leaf false 1), ("c", .leaf false 2)])]) := by
   simp [selectF, selectScan, selectGroups, groupAdd, dget, dset]
+
+/-- a strict `select(*keys)` — out of place or in place — raises EXACTLY when one of the keys is empty or not bound in the
+receiver (a key running through a tensor is not bound), for every state and every list of keys: the scan of the first
+components, the grouping of the nested sub-keys and the recursion into the nested tensordicts (also for keys that are only
+checked because an ancestor was selected as a whole) miss nothing and refuse nothing else. -/
+theorem select_strict_raises_iff (keys : List Path) (inplace : Bool) (kids : Kids) :
+    (∃ e, (selectT keys true inplace (.node kids)).2 = .err e) ↔
+      ∃ p ∈ keys, p = [] ∨ lookup p (.node kids) = none := by
+  have hiff := selectF_strict_ok_iff (maxLen keys) keys kids (fun p hp => le_maxLen hp)
+  have hin := (selectF_inplace (maxLen keys + 1) keys true (.node kids)).1
+  have hrhs : (∃ p ∈ keys, p = [] ∨ lookup p (.node kids) = none) ↔
+      ¬ ∀ p ∈ keys, p ≠ [] ∧ (lookup p (.node kids)).isSome = true := by
+    constructor
+    · rintro ⟨p, hp, h⟩ hall
+      obtain ⟨h1, h2⟩ := hall p hp
+      rcases h with h | h
+      · exact h1 h
+      · rw [h] at h2; simp at h2
+    · intro h
+      apply Classical.byContradiction
+      intro hne
+      apply h
+      intro p hp
+      refine ⟨fun e => hne ⟨p, hp, Or.inl e⟩, ?_⟩
+      cases hl : lookup p (.node kids) with
+      | none => exact absurd ⟨p, hp, Or.inr hl⟩ hne
+      | some v => rfl
+  rw [hrhs, ← hiff]
+  cases hout : (selectF (maxLen keys + 1) keys true false (.node kids)) with
+  | mk t0 o0 =>
+    rw [hout] at hin
+    simp only at hin
+    cases inplace with
+    | false =>
+      simp only [selectT, Bool.false_eq_true, if_false, hout]
+      cases o0 <;> simp
+    | true =>
+      simp only [selectT, if_true, hout]
+      cases o0 with
+      | error e => simp
+      | ok r =>
+        simp only []
+        cases hi : selectF (maxLen keys + 1) keys true true (.node kids) with
+        | mk t1 o1 =>
+          rw [hi] at hin
+          simp only at hin
+          subst hin
+          simp
 
 /-- `select(*keys, inplace=True)` (repaired; the former known finding C04-select-inplace-not-atomic) is atomic: a call that
 raises — a missing key with `strict=True`, a key running through a tensor — leaves the receiver exactly as it was, for every
